@@ -26,11 +26,14 @@ RULES = {
     "containers are restored wholesale"
     " ; P0: the undo code is in a finally (in call_onnx_api or in the context-manager helper it enters)",
     "R5": "passes declaring changes_input = False write model state only through the R4 protocol",
+    "R7": "fresh snapshots (shared rule S7): a frozenset/set/tuple/list/dict copy of a model collection taken before a loop "
+    "and consulted inside it for a decision (membership, lookup - also in a helper that receives it) is not written by "
+    "that loop (helpers that receive the owner included), except for adding the loop's own item after testing that item",
     "R6": "history-free pass objects (shared with C05-R5): per-run state kept on a pass object is re-initialised "
     "unconditionally before its first use in call()/requires(), so a reused pass object (Sequential, PassManager) does to a "
     "model exactly what a fresh one does",
 }
-FLOORS = {"R1": 18, "R2": 40, "R3": 10, "R4": 4, "R5": 1, "R6": 8}
+FLOORS = {"R1": 18, "R2": 40, "R3": 10, "R4": 4, "R5": 1, "R6": 8, "R7": 5}
 EXPLANATION = (
     "For every pass class found under onnx_ir.passes: CFG queries over `call` and every helper it reaches that "
     "writes model state (effect summaries with root tags), relating each write to the flag variables that reach "
@@ -699,6 +702,20 @@ def rule_r5(ctx, passes, ef):
     ctx.require(n >= 1, "no side-effect-only pass found")
 
 
+def rule_r7(ctx):
+    from ..shared import stale_snapshot_sites
+
+    by_snap: dict = {}
+    for f, a, lp, ok, detail, label in stale_snapshot_sites(ctx.repo, ctx.typer, "onnx_ir.passes"):
+        cur = by_snap.setdefault((f.key, id(a)), [f, a, True, "", label])
+        if not ok and cur[2]:
+            cur[2], cur[3] = False, detail
+    for f, a, ok, detail, label in by_snap.values():
+        ctx.check("R7", f"{f.local}: {label}", ok, f, a, detail + " - decisions taken from it (rename or keep an output name, insert an Identity) damage the model",
+                  how="snapshot assignments × later loops: decision reads (own and in callees receiving the snapshot) vs writes to the snapshotted "
+                  "collection (own and in callees receiving its owner)", construct=label)
+
+
 def run(ctx):
     ef = ctx._shared.get("effects")
     if ef is None:
@@ -714,3 +731,4 @@ def run(ctx):
     from . import c05
 
     c05.rule_r5(ctx, rule="R6")
+    rule_r7(ctx)
